@@ -687,6 +687,17 @@ func (s *c13State) step(op string) (enabled bool) {
 			}
 			s.afterCall("FlushPage", false)
 		}
+		if len(h.pins) > 0 {
+			// a pinned page is resident: what its holders wrote so far is on disk now, so they may unpin it clean
+			// (flush while pinned, then a clean unpin, then eviction: the next fetch has to find the flushed bytes)
+			for _, p := range h.pins {
+				if p.wrote {
+					p.wrote = false
+					s.add("flushes_of_a_page_modified_under_a_pin", 1)
+				}
+			}
+			h.materialized = true
+		}
 	case "flushall", "flushdirty":
 		if !dry {
 			for _, o := range s.h {
